@@ -41,13 +41,14 @@ class Prop(object):
                 for expired in (False, True):
                     for revoked in (False, True):
                         u.append(('config', {'key': kname, 'strength': strength, 'hash': h, 'expired': expired, 'revoked': revoked}))
+        u.append(('expiry-window', {}))
         for kname in ('ed25519a', 'ecdsa_p256a', 'rsa2048a'):
             for first in LIVE_MENU:
                 u.append(('live', {'key': kname, 'first': first, 'depth': 3 if tier == 'quick' else 4}))
         return u
 
     def run_case(self, check, case):
-        return getattr(self, 'c_' + check)(case)
+        return getattr(self, 'c_' + check.replace('-', '_'))(case)
 
     # -----------------------------------------------------------------------------------------
     def c_lattice(self, case):
@@ -137,6 +138,42 @@ class Prop(object):
                 r.viol('results', {'kind': 'incoherent-result', 'issue_values': kinds}, {'n': n, 'first': combo[0], 'only': list(combo)},
                        'entries %r: %s' % ([repr(sl[ix]) for ix in combo], '; '.join(problems)))
         r.samples.append({'entries': [repr(sl[ix]) for ix in combos[-1]]})
+        return r
+
+    def c_expiry_window(self, case):
+        """Keys whose expiry lies one hour in the past / one hour in the future, with the creation time held as a datetime of every kind of UTC offset:
+        expired is a statement about instants, not about wall-clock digits."""
+        import time
+        import pgpy
+        from datetime import datetime, timedelta, timezone
+        from pgpy.constants import HashAlgorithm
+        r = Res()
+        now = int(time.time())
+        for kname in ('ed25519a', 'ecdsa_p256a'):
+            for oname, off in (('utc', timedelta(0)), ('+14:00', timedelta(hours=14)), ('+05:30', timedelta(hours=5, minutes=30)), ('-08:00', timedelta(hours=-8)),
+                               ('-12:00', timedelta(hours=-12))):
+                for side, created in (('expired one hour ago', now - 86400 - 3600), ('expires in one hour', now - 86400 + 3600)):
+                    r.states += 1
+                    r.transitions += 3
+                    key, raw = K.pgpy_cert(kname, created=created, key_expiration=timedelta(days=1))
+                    A.set_created(key, datetime.fromtimestamp(created, timezone(off)))
+                    sig = key.sign('window\n', hash=HashAlgorithm.SHA256, created=K.dt(created + 50))
+                    want_expired = side.startswith('expired')
+                    probs = []
+                    for who, obj in (('private key', key), ('public twin', key.pubkey)):
+                        try:
+                            if obj.is_expired != want_expired:
+                                probs.append('%s: is_expired %r' % (who, obj.is_expired))
+                            if bool(obj.verify('window\n', sig)) == want_expired:
+                                probs.append('%s: verify is %s' % (who, 'truthy' if want_expired else 'falsy'))
+                        except pgpy.errors.PGPError as e:
+                            if not want_expired:
+                                probs.append('%s: %r' % (who, e))
+                    r.outcomes['window:' + ('ok' if not probs else 'violation')] += 1
+                    if probs:
+                        r.viol('expiry-window', {'kind': 'expiry-instant', 'offset': 'utc' if oname == 'utc' else 'other', 'side': side.split()[0]}, case,
+                               'key %s, creation time held in zone %s, %s: %s' % (kname, oname, side, '; '.join(probs)))
+        r.samples.append({'expiry_window': 'expired 1 h ago / expires in 1 h x 5 UTC offsets'})
         return r
 
     def c_live(self, case):
